@@ -310,7 +310,7 @@ def _random_shard(job):
     seed, n = job
     rng = random.Random(seed)
     res = _new_res()
-    res.update(evaluations=0, accepted=0, nontrivial=0, samples=[], kinds={})
+    res.update(evaluations=0, accepted=0, nontrivial=set(), samples=[], kinds={})
     traces = []
     for i in range(n):
         s = gen_grammar(rng) if i % 4 else gen_unicode(rng)
@@ -319,7 +319,7 @@ def _random_shard(job):
         if ev["k"] == "url":
             res["accepted"] += 1
             if ev["u"]["host"] not in (NONE, []):
-                res["nontrivial"] += 1
+                res["nontrivial"].add(s)
         traces.append(ev)
     if traces:
         ev = traces[min(5, len(traces) - 1)]
@@ -478,7 +478,8 @@ def run(rep):
     nt0 = len(rep.nontrivial)
     for o in rnd:
         _absorb(rep, findings, o, tally)
-    rep.nontrivial.update(("rnd", x) for x in range(sum(o["nontrivial"] for o in rnd)))
+    for o in rnd:
+        rep.nontrivial.update(("rnd", x) for x in o["nontrivial"])
     if sum(o["accepted"] for o in rnd) < nrand // 20:
         raise tlc.MachineryError("grammar / unicode generator: fewer than 5% of the inputs were accepted by parse_url - vacuous")
     rep.extra["random_traces"] = {"n": sum(o["traces"] for o in rnd), "accepted": sum(o["accepted"] for o in rnd),
